@@ -1601,6 +1601,18 @@ class H2Connection:
         events = self.state_machine.process_input(
             ConnectionInputs.RECV_HEADERS
         )
+
+        # Only clients open streams with HEADERS frames. A server announces
+        # the streams it initiates with PUSH_PROMISE, so a HEADERS frame on an
+        # even stream ID we have never heard of must not create a stream.
+        if (self.config.client_side and
+                frame.stream_id not in self.streams and
+                frame.stream_id % 2 == 0 and
+                frame.stream_id > self.highest_inbound_stream_id):
+            raise ProtocolError(
+                "Received HEADERS on unpromised stream %d" % frame.stream_id
+            )
+
         stream = self._get_or_create_stream(
             frame.stream_id, AllowedStreamIDs(not self.config.client_side)
         )
